@@ -927,8 +927,15 @@ func runC05(c *Ctx) {
 					ev++
 					op.ret = ev
 					if nTasks == 1 {
+						// "a disabled entry causes no field marshaling": judged for
+						// entries that are delivered nowhere. (That a lazy-with
+						// node under a branch that declines the entry stays
+						// unevaluated while other branches accept it is how zap
+						// happens to work - an extra Sync of the tee, say, would
+						// evaluate it - and not something the statement asks.)
+						nowhere := !w.deliver(root, l, w.val, map[int]bool{}, map[int]bool{})
 						for _, ln := range w.nodes {
-							if ln.kind != c5Lazy || ln.underLazy {
+							if ln.kind != c5Lazy || ln.underLazy || !nowhere {
 								continue
 							}
 							// the wrapped core's own report decides (an increase-level
